@@ -200,4 +200,46 @@ mod vp_kani_rlp {
             }
         }
     }
+
+    #[kani::proof]
+    #[kani::unwind(10)]
+    fn ipv4_decode_conforms() {
+        let buf: [u8; 8] = kani::any();
+        let len: usize = kani::any();
+        kani::assume(len <= 8);
+        let s = &buf[..len];
+        let mut cur = s;
+        let r = <std::net::Ipv4Addr as Decodable>::decode(&mut cur);
+        // spec: fixed_str_ok(s, 4) -- a string item whose payload has exactly 4 bytes; the address is that payload
+        match parse_hdr_exec(s) {
+            Some((list, payload, hlen)) if !list && payload == 4 => {
+                assert!(r.is_ok());
+                let a = r.unwrap().octets();
+                assert!(a[0] == s[hlen] && a[1] == s[hlen + 1] && a[2] == s[hlen + 2] && a[3] == s[hlen + 3]);
+                assert!(cur.len() == len - hlen - 4);
+            }
+            _ => assert!(r.is_err()),
+        }
+    }
+
+    #[kani::proof]
+    #[kani::unwind(22)]
+    fn ipv6_decode_conforms() {
+        let buf: [u8; 20] = kani::any();
+        let len: usize = kani::any();
+        kani::assume(len <= 20);
+        let s = &buf[..len];
+        let mut cur = s;
+        let r = <std::net::Ipv6Addr as Decodable>::decode(&mut cur);
+        match parse_hdr_exec(s) {
+            Some((list, payload, hlen)) if !list && payload == 16 => {
+                assert!(r.is_ok());
+                let a = r.unwrap().octets();
+                let mut i = 0;
+                while i < 16 { assert!(a[i] == s[hlen + i]); i += 1; }
+                assert!(cur.len() == len - hlen - 16);
+            }
+            _ => assert!(r.is_err()),
+        }
+    }
 }
